@@ -118,6 +118,36 @@ fn strat_div(_: usize) -> BoxedStrategy<Case> {
     prop_oneof![30 => nonzero, 1 => zero_div].boxed()
 }
 
+/// all (numerator, divisor) with 1..=4 / 1..=3 limbs from a small alphabet (complete enumeration)
+fn enum_div_alphabet(f: &mut dyn FnMut(&Case) -> R) -> R {
+    let words = |len: usize| -> Vec<Vec<u64>> {
+        let a = &LIMB_ALPHABET5;
+        let mut out = vec![];
+        for mut idx in 0..(a.len() as u64).pow(len as u32) {
+            let mut v = vec![];
+            for _ in 0..len {
+                v.push(a[(idx % a.len() as u64) as usize]);
+                idx /= a.len() as u64;
+            }
+            out.push(v);
+        }
+        out
+    };
+    for nl in 1..=4 {
+        for dl in 1..=3 {
+            for n in words(nl) {
+                for d in words(dl) {
+                    if d.iter().all(|x| *x == 0) {
+                        continue;
+                    }
+                    f(&Case::new().l(n.clone()).l(d).n(7))?;
+                }
+            }
+        }
+    }
+    Ok(())
+}
+
 fn kernel_classes(rec: &mut Rec, n: &[u64], dv: &[u64], q: &BigUint) -> bool {
     let dl = trim(dv).len();
     let nl = trim(n).len();
@@ -509,7 +539,7 @@ fn main() {
     }
     let spec = PropSpec {
         id: "C14",
-        rule_text: "slice-level generators: numerator/divisor lengths 0..=12 independently with zero padding at the high end, divisors of every effective length with 0..63 leading zero bits, numerators from 5 classes (independent boundary-alphabet limbs; q*d+r with extreme q,d,r; copying the divisor's leading limbs with perturbed lower limbs, equal and slightly smaller top window; powers of two aligned to a limb top after the normalising shift, -1, +1, with low noise); one divisor in six (>= 2 limbs) has normalised leading 128 bits solved onto the tie of reciprocal_2's last correction step (p == d1 after the carry; vcore::recip bisection) or one beside it; each specialised kernel only on its documented domain; reciprocals on all 256 table rows (start, start+1, end, end-1, 3 scattered) x 6 low limbs, enumerated, plus generated, half of the generated reciprocal_2 arguments solved onto the last correction step's tie (classes recip2:tie_*). Oracle: num-bigint / u128 quotient and remainder; floor((2^128-1)/d)-2^64 and floor((2^192-1)/d)-2^64. Non-trivial: divisor >= 2 limbs after trimming and non-zero quotient (div), >= 2 numerator limbs (n-by-1), non-zero quotient (n-by-2, n-by-m), every case for the fixed-size kernels and reciprocals (all inputs are normalised by construction); distinct by inputs. div_3x2_ref is excluded: its own doc comment says it is off by one.",
+        rule_text: "slice-level generators: numerator/divisor lengths 0..=12 independently with zero padding at the high end, divisors of every effective length with 0..63 leading zero bits, numerators from 5 classes (independent boundary-alphabet limbs; q*d+r with extreme q,d,r; copying the divisor's leading limbs with perturbed lower limbs, equal and slightly smaller top window; powers of two aligned to a limb top after the normalising shift, -1, +1, with low noise); one divisor in six (>= 2 limbs) has normalised leading 128 bits solved onto the tie of reciprocal_2's last correction step (p == d1 after the carry; vcore::recip bisection) or one beside it; complete enumeration of all numerators of 1..=4 limbs x divisors of 1..=3 limbs over {0,1,2^63,MAX-1,MAX} for algorithms::div; each specialised kernel only on its documented domain; reciprocals on all 256 table rows (start, start+1, end, end-1, 3 scattered) x 6 low limbs, enumerated, plus generated, half of the generated reciprocal_2 arguments solved onto the last correction step's tie (classes recip2:tie_*). Oracle: num-bigint / u128 quotient and remainder; floor((2^128-1)/d)-2^64 and floor((2^192-1)/d)-2^64. Non-trivial: divisor >= 2 limbs after trimming and non-zero quotient (div), >= 2 numerator limbs (n-by-1), non-zero quotient (n-by-2, n-by-m), every case for the fixed-size kernels and reciprocals (all inputs are normalised by construction); distinct by inputs. div_3x2_ref is excluded: its own doc comment says it is off by one.",
         assumptions: vec![
             "num-bigint and u128 division are correct (oracle)",
             "div_nxm_normalized is exercised only on the shape len(numerator)=len(divisor)+len(quotient), len(quotient)>=1, the shape used by the repository's own tests (DESIGN 4 C14)",
@@ -521,6 +551,7 @@ fn main() {
         spec,
         |jobs, _| {
             jobs.gen("div", 0, 200_000, || strat_div(0), body_div::<0, 0>);
+            jobs.enumerate("div_limb_alphabet", 0, |f| enum_div_alphabet(f), body_div::<0, 0>);
             jobs.gen("div_nx1", 0, 40_000, || strat_nx1(0), body_nx1::<0, 0>);
             jobs.gen("div_nx2", 0, 40_000, || strat_nx2(0), body_nx2::<0, 0>);
             jobs.gen("div_nxm", 0, 60_000, || strat_nxm(0), body_nxm::<0, 0>);
